@@ -353,6 +353,11 @@ func cmdCheck(args []string) int {
 				}
 				violations = append(violations, fmt.Sprintf("VIOLATION property=%s replay=%s%s", *prop, path, suffix))
 			}
+		} else if !good && ob.Solver == "frame-checker" && ob.Status == "refuted" {
+			// decided by the frame / determinism back end (no solver involved): a new source of shared state or nondeterminism
+			path := writeReplay(replayDir, *prop, ob, p)
+			violations = append(violations, fmt.Sprintf("VIOLATION property=%s replay=%s no-failing-input-found", *prop, path))
+			nObl++
 		} else if !good {
 			// a new, unclaimed obligation that does not discharge: undecided unless it replays
 			undecided = append(undecided, ob.Name)
